@@ -24,7 +24,7 @@ func (s varSpec) line() string {
 	var parts []string
 	for i, l := range varLevels {
 		if s.mask&(1<<uint(i)) != 0 && (s.stage || l != "stage") {
-			parts = append(parts, l+"="+s.vals[i])
+			parts = append(parts, l+"="+strings.ReplaceAll(s.vals[i], "=", "~"))
 		}
 	}
 	return "vars " + strings.Join(parts, " ")
@@ -96,7 +96,7 @@ func varCase(col *Collector, s varSpec) {
 		}
 	default:
 		exp := fmt.Sprintf("V=[%s] builtins=[RTA0]", want)
-		cs.Impl = "V=" + strings.TrimSuffix(strings.TrimPrefix(strings.Fields(got + " V=[<none>]")[0], "V=["), "]")
+		cs.Impl = "V=" + strings.ReplaceAll(strings.TrimSuffix(strings.TrimPrefix(strings.Fields(got + " V=[<none>]")[0], "V=["), "]"), "=", "~")
 		if got != exp {
 			sig := "c10-precedence"
 			if has(0) && want == s.vals[0] {
@@ -176,7 +176,11 @@ tasks:
 
 // ---- a command that refers to an undefined variable ----
 
-func undefCase(col *Collector, n, pos int, allow bool) {
+// the ways a template can refer to a variable no level defines: printed, tested, piped into a function, ranged over
+var undefForms = []string{`[{{.NoSuchVariable}}]`, `[{{ if .NoSuchVariable }}yes{{ end }}]`, `[{{ .NoSuchVariable | default "dflt" }}]`,
+	`[{{ with .NoSuchVariable }}{{ . }}{{ end }}]`, `[{{ range .NoSuchVariable }}x{{ end }}]`, `[{{ printf "%v" .NoSuchVariable }}]`}
+
+func undefCase(col *Collector, n, pos int, allow bool, form int) {
 	dir := newScratchDir("c10u")
 	defer os.RemoveAll(dir)
 	trace := filepath.Join(dir, "trace")
@@ -188,7 +192,7 @@ func undefCase(col *Collector, n, pos int, allow bool) {
 	b.WriteString("    command:\n")
 	for j := 0; j < n; j++ {
 		if j == pos {
-			fmt.Fprintf(&b, "      - 'echo m%d-[{{.NoSuchVariable}}] >> %s'\n", j, trace)
+			fmt.Fprintf(&b, "      - 'echo m%d-%s >> %s'\n", j, undefForms[form], trace)
 		} else {
 			fmt.Fprintf(&b, "      - 'echo m%d >> %s'\n", j, trace)
 		}
@@ -211,7 +215,7 @@ func undefCase(col *Collector, n, pos int, allow bool) {
 		al = 1
 	}
 	cs.Line = fmt.Sprintf("runner cond=- before=- n=%d vars=- res=%s after=- allow=%d init=0", n, strings.Join(resl, ","), al)
-	cs.Replay = fmt.Sprintf("undefined variable in command %d of %d allow=%v", pos, n, allow)
+	cs.Replay = fmt.Sprintf("undefined variable in command %d of %d allow=%v, written %s", pos, n, allow, undefForms[form])
 	toks := make([]string, len(ran))
 	for i, r := range ran {
 		toks[i] = strings.Replace(r, "m", "m0.", 1)
@@ -250,6 +254,15 @@ func runC10(col *Collector, tier string, seed int64) {
 					s.vals[i] = fmt.Sprintf("%c-%s", 'a'+byte(r*5), varLevels[i])
 				}
 				vs = append(vs, s)
+				// the same case with values that contain "=" (--set NAME=a=b keeps everything after the first "=")
+				if ord == 1 && mask != 0 {
+					e := s
+					e.vals = make([]string, len(s.vals))
+					for i, v := range s.vals {
+						e.vals[i] = strings.Replace(v, "-", "=", 1) + "=x"
+					}
+					vs = append(vs, e)
+				}
 				// the same case with an EMPTY value at the highest defining level: defined, so it hides the levels below
 				top := -1
 				for i := 3; i >= 0; i-- {
@@ -302,12 +315,19 @@ func runC10(col *Collector, tier string, seed int64) {
 	type ud struct {
 		n, pos int
 		allow  bool
+		form   int
 	}
 	var us []ud
 	for n := 1; n <= 3; n++ {
 		for pos := 0; pos < n; pos++ {
 			for _, allow := range []bool{false, true} {
-				us = append(us, ud{n, pos, allow})
+				us = append(us, ud{n, pos, allow, 0})
+				// the other ways of mentioning the variable, rotating over the positions
+				for f := 1; f < len(undefForms); f++ {
+					if (f+n+pos)%3 == 0 || tier == "thorough" {
+						us = append(us, ud{n, pos, allow, f})
+					}
+				}
 			}
 		}
 	}
@@ -323,7 +343,7 @@ func runC10(col *Collector, tier string, seed int64) {
 			argCase(col, as[i-len(vs)], dir)
 		default:
 			u := us[i-len(vs)-len(as)]
-			undefCase(col, u.n, u.pos, u.allow)
+			undefCase(col, u.n, u.pos, u.allow, u.form)
 		}
 	})
 	col.res.Exhaustive = true
